@@ -31,6 +31,8 @@ func init() {
 	add("C17", "C17/union-variants", "C05/union-variants", ruleC05UnionVariants)
 	add("C18", "C18/annotations-handover", "C07/R2", ruleC07R2)
 	add("C08", "C08/decided-by-equal", "C12/decided-by-equal", ruleC12DecidedByEqual)
+	add("C01", "C01/decided-by-equal", "C12/decided-by-equal", ruleC12DecidedByEqual) // enum, const and uniqueItems are part of the validity relation
+	add("C08", "C08/equality-clauses", "C12/equality-clauses", eq)                     // an array instance against a slice keyword value: representation independence of const/enum
 }
 
 func init() {
@@ -242,4 +244,96 @@ func knownNonNil(ret *ssa.Return, ev ssa.Value) bool {
 		}
 	}
 	return true
+}
+
+// What the side table says about one schema (which properties it requires, its compiled patterns, what its
+// references resolved to) is read from that schema's own entry: the key of the lookup is the schema at hand (a
+// parameter, the element of the traversal), never the root or a base resource loaded from a field.
+func init() {
+	for _, pid := range []string{"C15", "C01", "C03"} {
+		pid := pid
+		Properties[pid].Rules = append(Properties[pid].Rules, Rule{pid + "/own-side-table-entry", func(c *Ctx) { ruleOwnSideTableEntry(c, pid+"/own-side-table-entry") }})
+	}
+}
+
+func ruleOwnSideTableEntry(c *Ctx, rule string) {
+	perSchema := map[string]bool{"resolvedInfo.isRequired": true, "resolvedInfo.patternProperties": true, "resolvedInfo.resolvedRef": true,
+		"resolvedInfo.resolvedDynamicRef": true, "resolvedInfo.dynamicRefAnchor": true, "resolvedInfo.dynamicRefFallback": true}
+	n := 0
+	seen := map[*ssa.Function]bool{}
+	for _, cn := range []string{"EV", "DEF", "RES"} {
+		for _, fn := range c.Closure(rule, cn).Sorted() {
+			if seen[fn] {
+				continue
+			}
+			seen[fn] = true
+			k := 0
+			core.EachInstr(fn, func(i ssa.Instruction) {
+				lk, ok := i.(*ssa.Lookup)
+				if !ok || lk.CommaOk || !c.isMapTo(lk.X.Type(), "resolvedInfo") || lk.Referrers() == nil {
+					return
+				}
+				var fields []string
+				for _, v := range append(derivedValues(lk, 4), lk) {
+					if v.Referrers() == nil {
+						continue
+					}
+					for _, r := range *v.Referrers() {
+						if fa, ok := r.(*ssa.FieldAddr); ok && fa.X == v {
+							if f := c.fieldName(fa.X.Type(), fa.Field); perSchema[f] {
+								fields = append(fields, f)
+							}
+						}
+					}
+				}
+				if len(fields) == 0 {
+					return
+				}
+				n++
+				k++
+				bad := ""
+				for _, s := range traceSourcesPhi(lk.Index) {
+					if ld, ok := s.val.(*ssa.UnOp); ok {
+						if fa, ok := ld.X.(*ssa.FieldAddr); ok {
+							f := c.fieldName(fa.X.Type(), fa.Field)
+							if f == "Resolved.root" || f == "resolvedInfo.base" {
+								bad = f
+							}
+						}
+					}
+				}
+				c.R.Check(bad == "", rule, fmt.Sprintf("%s:lookup#%d", core.FuncName(fn), k), c.pos(lk), "the per-schema facts are read from the entry of the schema at hand",
+					fmt.Sprintf("%v of a schema are read from the side-table entry of %s instead of the schema's own entry: at every nesting depth the root's (or the resource's) facts are used, e.g. a nested `required` is ignored when defaults are applied", fields, bad))
+			})
+		}
+	}
+	c.R.Floor(rule, "reads of per-schema facts from the side table", n, 3)
+}
+
+// derivedValues: phis and stored-then-loaded copies of v (a few steps).
+func derivedValues(v ssa.Value, depth int) []ssa.Value {
+	var out []ssa.Value
+	if depth == 0 || v.Referrers() == nil {
+		return out
+	}
+	for _, r := range *v.Referrers() {
+		switch x := r.(type) {
+		case *ssa.Phi:
+			out = append(out, x)
+			out = append(out, derivedValues(x, depth-1)...)
+		case *ssa.Store:
+			if x.Val == v {
+				if cell := resolveCell(x.Addr); cell != nil && cell.Referrers() != nil {
+					for _, fn := range core.WithAnon(cell.Parent()) {
+						core.EachInstr(fn, func(i ssa.Instruction) {
+							if ld, ok := i.(*ssa.UnOp); ok && ld.Op.String() == "*" && resolveCell(ld.X) == cell {
+								out = append(out, ld)
+							}
+						})
+					}
+				}
+			}
+		}
+	}
+	return out
 }
